@@ -382,3 +382,225 @@ for _c in (True, False):
                              "acyclic plan: the node has no edge to itself"],
                 min_obligations=6,
             )(_mk(_c, _s, _st))
+
+
+# ---------------------------------------------------------------------------------------------------
+# plan_with_value_stores: loop over the registry entries (cut), composition over callee contracts
+# ---------------------------------------------------------------------------------------------------
+NodeMapS = z3.ArraySort(Node, Node)
+write_of = z3.Function("write_of", Node, Node)
+read_of = z3.Function("read_of", Node, Node)
+
+
+class NodeMap:
+    """python dict node -> node"""
+
+    def __init__(self, ctx, objs):
+        self.ctx, self.objs = ctx, objs
+        self.dom = G.EMPTY
+        self.val = ctx.fresh(NodeMapS, "lookup0")
+        self.out_result = None
+
+    def __setitem__(self, k, v):
+        kt, vt = self.objs.nt(k), self.objs.nt(v)
+        self.dom = insert(self.dom, kt)
+        self.val = z3.Store(self.val, kt, vt)
+
+    def get(self, k, default=None):
+        kt = self.objs.nt(k)
+        if self.ctx.branch(member(self.dom, kt), "output-node-is-registered"):
+            o = self.objs.new_node("Call", "looked-up")
+            self.ctx.assume(self.objs.nt(o) == z3.Select(self.val, kt))
+            return o
+        return default
+
+
+class NodeSet:
+    def __init__(self, ctx, objs):
+        self.ctx, self.objs = ctx, objs
+        self.t = G.EMPTY
+
+    def add(self, x):
+        self.t = insert(self.t, self.objs.nt(x))
+
+
+class RegItems:
+    pass
+
+
+class RegLoop(LoopContract):
+    """for node, registry_value in registry.mapping.items():"""
+
+    def __init__(self, u):
+        self.u = u
+
+    def inv(self, vis):
+        u = self.u
+        req, lk = u["vc"].sets[0], u["vc"].maps[0]
+        x, n = z3.Const("x!rl", Node), z3.Const("n!rl", Node)
+        return z3.And(
+            z3.ForAll([x], member(req.t, x) == z3.Exists([n], z3.And(member(vis, n), member(u["stale"], n), x == write_of(n)))),
+            z3.ForAll([n], member(lk.dom, n) == member(vis, n)),
+            z3.ForAll([n], z3.Implies(member(vis, n), z3.Select(lk.val, n) == read_of(n))),
+        )
+
+    def establish(self, ctx, it, locs):
+        if not isinstance(it, RegItems):
+            raise Unsupported("loop does not iterate registry.mapping.items()")
+        if len(self.u["vc"].sets) != 1 or len(self.u["vc"].maps) != 1:
+            raise Unsupported("plan_with_value_stores no longer creates exactly one set and one dict before its loop")
+        ctx.check("registry-loop/establish", self.inv(G.EMPTY), props=["C05"])
+
+    def havoc(self, ctx, it, locs):
+        u = self.u
+        req, lk = u["vc"].sets[0], u["vc"].maps[0]
+        self.vis = ctx.fresh(G.SetN, "vis")
+        ctx.assume(G.subset(self.vis, u["R"], "vr"))
+        req.t = ctx.fresh(G.SetN, "required")
+        lk.dom, lk.val = ctx.fresh(G.SetN, "lkdom"), ctx.fresh(NodeMapS, "lkval")
+        ctx.assume(self.inv(self.vis))
+        u["log"][:] = [e for e in u["log"] if e[0] != "_add_value_store"]
+        return {}
+
+    def iterate(self, ctx, it):
+        u = self.u
+        if ctx.choose(2, "registry-loop") == 0:
+            n = u["objs"].new_node("Call", "regnode")
+            nt = u["objs"].nt(n)
+            ctx.assume(member(u["R"], nt))
+            ctx.assume(z3.Not(member(self.vis, nt)))
+            self.nt = nt
+            rv = object()
+            u["rv_of"][id(n)] = rv
+            self.current = (n, rv)
+            return True
+        return False
+
+    def preserve(self, ctx, locs):
+        u = self.u
+        avs = [e for e in u["log"] if e[0] == "_add_value_store"]
+        ctx.check("registry-loop/exactly-one-_add_value_store-per-entry", bool(len(avs) == 1), props=["C05", "C09"])
+        ctx.check("registry-loop/preserve", self.inv(insert(self.vis, self.nt)), props=["C05"])
+
+    def at_exit(self, ctx, it):
+        ctx.assume(G.seteq(self.vis, self.u["R"], "ve"))
+
+
+@unit("rewrite.plan_with_value_stores", props=["C05", "C09", "C03", "C10", "C13", "C14", "C15"], functions=[(REL, "plan_with_value_stores")],
+      assumptions=["contracts of _update_stale_totals, _get_stale_nodes, _add_value_store, prune_plan, get_mutable_plan (own units)",
+                   "write_of / read_of: the (fresh, pairwise distinct) write and read nodes _add_value_store returns for a registry entry"],
+      min_obligations=8)
+def pwvs_unit(ctx):
+    cls = real_classes()
+    objs = M.Objects(ctx, cls)
+    log = []
+    R = ctx.fresh(G.SetN, "registered")
+    stale = ctx.fresh(G.SetN, "stale")
+    u = {"objs": objs, "R": R, "stale": stale, "log": log, "rv_of": {}}
+
+    class PVC2(VC):
+        def __init__(self, ctx):
+            super().__init__(ctx)
+            self.sets, self.maps = [], []
+
+        def new_set(self):
+            s = NodeSet(ctx, objs)
+            self.sets.append(s)
+            return s
+
+        def new_dict(self):
+            m = NodeMap(ctx, objs)
+            self.maps.append(m)
+            return m
+
+        def resolve_loop(self, key, it):
+            return RegLoop(u) if isinstance(it, RegItems) else None
+
+    vc = PVC2(ctx)
+    u["vc"] = vc
+
+    class Mapping:
+        def items(self):
+            return RegItems()
+
+    class Registry:
+        mapping = Mapping()
+
+    registry = Registry()
+
+    class Plan:
+        def __init__(self, tag):
+            self.tag = tag
+
+    given, work = Plan("given"), Plan("work")
+    inplace = ctx.choose(2, "inplace") == 0
+    OBS, MW, RETRY, FRESH = object(), object(), object(), object()
+
+    def _update_stale_totals(plan, reg, obs):
+        log.append(("_update_stale_totals", plan, reg, obs))
+
+    def get_mutable_plan(p, *, inplace):
+        log.append(("get_mutable_plan", p, inplace))
+        return p if inplace else work
+
+    class StaleSet:
+        def __contains__(self, n):
+            return ctx.branch(member(stale, objs.nt(n)), "node-in-stale-set")
+
+    def _get_stale_nodes(plan, reg, *, max_workers=None, retry, fresh_time=None, progress_observer):
+        log.append(("_get_stale_nodes", plan, reg, max_workers, retry, fresh_time, progress_observer))
+        return StaleSet()
+
+    def _add_value_store(plan, node, rv, *, is_stale):
+        nt = objs.nt(node)
+        log.append(("_add_value_store", plan, node, rv, is_stale))
+        ctx.check("_add_value_store:is_stale==(node-in-stale-set)", member(stale, nt) if is_stale is True else z3.Not(member(stale, nt)) if is_stale is False else False,
+                  props=["C05", "C09"])
+        ctx.check("_add_value_store:gets-the-working-plan-and-the-entry's-own-registry-value",
+                  bool(plan is (given if inplace else work) and rv is u["rv_of"].get(id(node))), props=["C13", "C05"])
+        r = objs.new_node("Call", "readnode")
+        ctx.assume(objs.nt(r) == read_of(nt))
+        w = None
+        if is_stale:
+            w = objs.new_node("Call", "writenode")
+            ctx.assume(objs.nt(w) == write_of(nt))
+        return w, r
+
+    pruned = []
+
+    def prune_plan(plan, *, required_nodes, output_node, inplace):
+        pruned.append((plan, required_nodes, output_node, inplace))
+        return plan
+
+    env = {"__vc": vc, "_update_stale_totals": _update_stale_totals, "get_mutable_plan": get_mutable_plan, "_get_stale_nodes": _get_stale_nodes,
+           "_add_value_store": _add_value_store, "prune_plan": prune_plan}
+    f = get(REL, "plan_with_value_stores", cut_loops="auto", sym_containers=True).compile_into(env)
+    has_out = ctx.choose(2, "output-node") == 0
+    out = objs.new_node("Call", "out") if has_out else None
+    r = f(given, registry, output_node=out, max_workers=MW, retry=RETRY, fresh_time=FRESH, inplace=inplace, progress_observer=OBS)
+    wk = given if inplace else work
+    names = [e[0] for e in log]
+    ctx.check("C15:stale-totals-announced-first(from-the-plan-as-given,before-the-check-runs)",
+              bool(names[:1] == ["_update_stale_totals"] and log[0][1] is given and log[0][2] is registry and log[0][3] is OBS), props=["C15"])
+    ctx.check("works-on-a-copy-unless-inplace", bool(("get_mutable_plan", given, inplace) in log), props=["C13"])
+    s = next((e for e in log if e[0] == "_get_stale_nodes"), None)
+    ctx.check("C10:stale-check-gets-(working-plan,registry,max_workers,retry,fresh_time,observer)",
+              bool(s is not None and s[1] is wk and s[2] is registry and s[3] is MW and s[4] is RETRY and s[5] is FRESH and s[6] is OBS), props=["C10", "C05", "C18"])
+    ok = len(pruned) == 1 and pruned[0][0] is wk and pruned[0][3] is True and isinstance(pruned[0][1], NodeSet)
+    ctx.check("prune_plan(working-plan,required,output,inplace=True)-once-at-the-end", bool(ok), props=["C05", "C04"])
+    if ok:
+        req = pruned[0][1]
+        x, n = z3.Const("x!pq", Node), z3.Const("n!pq", Node)
+        ctx.check("C05:required=={write-node(n)|n-registered-and-stale}",
+                  z3.ForAll([x], member(req.t, x) == z3.Exists([n], z3.And(member(R, n), member(stale, n), x == write_of(n)))), props=["C05", "C03", "C08"])
+        po = pruned[0][2]
+        if not has_out:
+            ctx.check("no-output=>prune-without-output-node", bool(po is None), props=["C05"])
+        else:
+            ot = objs.nt(out)
+            ctx.check("C09:output-redirected-to-the-read-node-iff-the-output-node-is-registered",
+                      bool(po is not None) and z3.If(member(R, ot), objs.nt(po) == read_of(ot), objs.nt(po) == ot), props=["C09", "C14"])
+            ctx.check("returns-(working-plan,redirected-output)", bool(isinstance(r, tuple) and r[0] is wk and r[1] is po), props=["C09", "C14"])
+    if not has_out:
+        ctx.check("returns-(working-plan,None)", bool(isinstance(r, tuple) and r[0] is wk and r[1] is None), props=["C14"])
+    return "ok"
